@@ -146,6 +146,21 @@ func hooks(sc *pipe.Scenario) *pipe.Hooks {
 	}}
 }
 
+// flushAbandoned: between the force stop and the reopen the engine logged that the
+// teardown of this source gave up waiting for the final position flush.
+func flushAbandoned(evs []rig.Ev, src string, from, to int) bool {
+	if from < 0 {
+		from = 0
+	}
+	for i := from; i < to && i < len(evs); i++ {
+		if evs[i].Kind == rig.KWarn && strings.Contains(evs[i].Note, "\"connector_id\":\""+src+"\"") &&
+			(strings.Contains(evs[i].Note, "timed out waiting for the final flush") || strings.Contains(evs[i].Note, "gave up draining pending deferred acks")) {
+			return true
+		}
+	}
+	return false
+}
+
 func judge(out *pipe.Outcome, ix *pipe.Index) pipe.Verdict {
 	var v pipe.Verdict
 	v.Stats = map[string]int64{}
@@ -324,7 +339,18 @@ func judge(out *pipe.Outcome, ix *pipe.Index) pipe.Verdict {
 						}
 					}
 					v.Stats["resume_positions_judged"]++
-					if e.Idx[0] != stored {
+					if e.Idx[0] > stored && flushAbandoned(evs, s.ID, fs, i) {
+						// The force-stopped run had acknowledged (every destination confirmed)
+						// records whose position was handed to the write-behind persister but not
+						// flushed yet; with its context cancelled the source's teardown does not
+						// wait for that flush (the engine logs that it gave up), the write is still
+						// pending in the persister and the connector's position in memory is ahead
+						// of the store. The restart opens the source there. What the property
+						// protects - no record skipped, none that was not handled - is judged by
+						// the next clause for exactly this position; the source plugin itself was
+						// never told more than the store holds (its acks stay deferred, C02).
+						v.Stats["resumed_at_acknowledged_position_whose_flush_the_force_stop_abandoned"]++
+					} else if e.Idx[0] != stored {
 						add("resume-not-from-durable-position", fmt.Sprintf("%s reopened at %d, stored position is %d", s.ID, e.Idx[0], stored), i)
 					}
 					for k := 0; k <= e.Idx[0]; k++ {
